@@ -1,7 +1,9 @@
 NOTES = ('Every check re-reads /repo/src/socketio with ast on each run, executes the functions under contract symbolically '
          'and discharges the generated verification conditions with z3/cvc5. Exit 0 held, 1 violation, 2 undecided '
          '(function outside the supported subset / not found / solver unknown on a new obligation), 3 engine self-check failed. '
-         'Genuine defects found so far are listed in known_findings.json (fixed ones with their /repo commit).')
+         'Genuine defects found are listed in known_findings.json; five were repaired in /repo by minimal unguarded commits whose message starts "fix:" '
+         '(61f8023, 057a35d, 64a2509, 03a6c1b, 408e8f0); no hook or instrumentation was added to /repo. Bounded stand-ins (C01/C02 codec) are reported '
+         'separately and never counted as discharged obligations. DESIGN.md section 0 describes what was built.')
 DEFAULT_NA = 'check not built yet (construction in progress; see DESIGN.md section 11 for the build order)'
 NOT_APPLICABLE = {}
 TB = ('Trusted: the PyVC encoding of Python semantics (/verif/pyvc), z3/cvc5, and the assumed contracts listed in the evidence file '
@@ -145,3 +147,15 @@ CLAIMED.update({
             'technique': GEN + '; syntactic atomicity rule for the gate',
             'note': TB + 'thread interleavings are not enumerated: the argument is the gate rule; the finding is not repaired (needs a lock in Server.disconnect/_handle_disconnect).'},
 })
+
+CLAIMED['C02'] = {
+    'text': 'Composition over per-function proofs. Proved without bound, for the threaded and the asyncio classes: emit() queues exactly one packet whose payload is '
+            '[event] ++ pack(data) on the stated namespace (tuple / None / single value cases, BadNamespaceError otherwise), with a fresh id iff a callback is given; '
+            '_send_packet hands the frames of one packet to engine.io contiguously and in order; _handle_eio_message gives every decoded packet to the handler its type selects '
+            '(binary packets reassembled per transport); _handle_event dispatches (event = payload[0], namespace, sid? ++ payload[1:]) exactly once and acknowledges with the packed '
+            'return value under the same id and namespace; _handle_ack/trigger_callback invoke the registered callback with the acknowledged elements; call() returns '
+            'None / the value / the tuple. Thirteen z3 lemmas connect those clause builders to the oracle args(x) written from the statement (what is queued is what the '
+            'receiving contract dispatches; callback and call() results). The codec round trip between the two sides is only BOUNDED (bounded/codec.py, default and msgpack).',
+    'design_ref': '0.2, 8.2', 'technique': GEN + '; composition lemmas; bounded stand-in for the codec',
+    'note': TB + 'engine.io delivers the frames of one connection losslessly and in order (assumed); Packet/MsgPackPacket encode-decode round trip is not proved (bounded over a '
+                 'finite packet grammar, reported separately); with async_handlers=True handlers are STARTED in arrival order, completion order is not claimed; concurrent emitters excluded by the property.'}
